@@ -62,6 +62,8 @@ type fileRenderer struct {
 //   - a field / extension without type reference has type int32
 //   - a custom option use is `(name) = 1`
 //   - each `ext` declaration gets its own extend block
+//
+// Files with X = true (spec/ProtoValid.tla) are rendered with explicit conventions instead: see x.go.
 func Render(w Workspace) *Rendered {
 	out := &Rendered{Src: map[string]string{}, Spans: map[Site]Span{}}
 	for i := range w {
@@ -137,6 +139,10 @@ func (r *fileRenderer) compactOpts(d int, opts []OptUse) {
 
 func (r *fileRenderer) fieldLine(d int, ind string, labelled bool) {
 	dl := &r.f.Decls[d-1]
+	if r.f.X {
+		r.fieldLineX(d, ind)
+		return
+	}
 	r.w.put(ind)
 	if labelled && r.f.Syntax == "proto2" {
 		r.w.put("optional ")
@@ -158,7 +164,9 @@ func (r *fileRenderer) decl(d int, ind string) {
 	case "message":
 		r.w.put(ind + "message " + dl.Name + " {\n")
 		r.optionStmts(d, dl.Opts, in2)
-		if r.f.Syntax != "proto3" {
+		if r.f.X {
+			r.rangesX(dl, in2)
+		} else if r.f.Syntax != "proto3" {
 			r.w.put(in2 + "extensions 1000 to 1999;\n")
 		}
 		for _, c := range r.kids[d] {
@@ -171,6 +179,9 @@ func (r *fileRenderer) decl(d int, ind string) {
 		n := 0
 		for _, c := range r.kids[d] {
 			cd := &r.f.Decls[c-1]
+			if r.f.X {
+				n = cd.Num
+			}
 			r.w.put(fmt.Sprintf("%s%s = %d", in2, cd.Name, n))
 			r.compactOpts(c, cd.Opts)
 			r.w.put(";\n")
@@ -201,8 +212,14 @@ func (r *fileRenderer) decl(d int, ind string) {
 		r.w.put(ind + "}\n")
 	case "method":
 		r.w.put(ind + "rpc " + dl.Name + "(")
+		if dl.CS {
+			r.w.put("stream ")
+		}
 		r.ref(d, "input", dl.Input)
 		r.w.put(") returns (")
+		if dl.SS {
+			r.w.put("stream ")
+		}
 		r.ref(d, "output", dl.Output)
 		if len(dl.Opts) == 0 {
 			r.w.put(");\n")
